@@ -97,34 +97,77 @@ def slice_of(e, D):
     return None
 
 
+def _lin(e, D):
+    """usize expression over the destination -> ({atom: coeff}, const); atoms: 'len' (backing slice / remaining()), 'pos'; None if
+    anything else occurs"""
+    e = strip_ref(e) if e[0] == 'ref' else e
+    if e[0] == 'c' and isinstance(e[1], int):
+        return {}, e[1]
+    if e[0] == 'len' and slice_of(e[1], D):
+        return {'len:' + slice_of(e[1], D): 1}, 0
+    if is_dest_field(e, D, 'pos'):
+        return {'pos': 1}, 0
+    if e[0] == 'bin' and e[1] in ('Add', 'Sub'):
+        a, b = _lin(e[2], D), _lin(e[3], D)
+        if a is None or b is None:
+            return None
+        s_ = 1 if e[1] == 'Add' else -1
+        out = dict(a[0])
+        for k, v in b[0].items():
+            out[k] = out.get(k, 0) + s_ * v
+            if out[k] == 0:
+                del out[k]
+        return out, a[1] + s_ * b[1]
+    return None
+
+
 def guard_capacity(cond, truth, D, dest_ty):
-    """Capacity proven by `cond == truth` for destination D, or None if the form is not recognised."""
+    """Capacity (free units) proven by `cond == truth` for destination D, or None if the condition says nothing recognisable.
+
+    The comparison is normalised to  L < R  or  L <= R  (whichever side, operator and polarity it was written with), both sides are
+    put in linear form over the destination's length and position, and the free space  len - pos  (Utf8/Utf16Destination) or
+    len(remaining) (ByteDestination) is isolated:  R - L = free + k  gives  free >= 1 - k  (strict) or  free >= -k."""
     if cond[0] == 'un' and cond[1] == 'Not':
         return guard_capacity(cond[2], not truth, D, dest_ty)
-    if cond[0] == 'is_empty' and not truth and slice_of(cond[1], D) and dest_ty == 'handles::ByteDestination':
-        return 1
-    if cond[0] != 'bin':
+    if cond[0] == 'is_empty' and slice_of(cond[1], D) and dest_ty == 'handles::ByteDestination':
+        return 1 if not truth else None
+    if cond[0] != 'bin' or cond[1] not in ('Lt', 'Le', 'Gt', 'Ge', 'Eq', 'Ne'):
         return None
     op, l, r = cond[1], cond[2], cond[3]
-    # normalise to  l < r  /  l >= r  with truth
-    if op in ('Gt', 'Le'):
-        op = {'Gt': 'Lt', 'Le': 'Ge'}[op]
-        l, r = r, l
-    if op == 'Lt' and truth and dest_ty != 'handles::ByteDestination':
-        # pos + k < len(slice)
-        if r[0] == 'len' and slice_of(r[1], D) == 'field':
-            if is_dest_field(l, D, 'pos'):
+    if op in ('Eq', 'Ne'):
+        # len == 0 / len != 0 on the byte destination
+        if dest_ty == 'handles::ByteDestination' and (op == 'Ne') == truth:
+            a, b = _lin(l, D), _lin(r, D)
+            if a is not None and b is not None and sorted([(tuple(a[0]), a[1]), (tuple(b[0]), b[1])], key=str) in (
+                    [((), 0), (('len:field',), 0)], [((), 0), (('len:remaining',), 0)]):
                 return 1
-            if l[0] == 'bin' and l[1] == 'Add' and is_dest_field(l[2], D, 'pos') and l[3][0] == 'c':
-                return l[3][1] + 1
-    if op == 'Ge' and truth and dest_ty == 'handles::ByteDestination':
-        if l[0] == 'len' and slice_of(l[1], D) and r[0] == 'c':
-            return r[1]
-    if op == 'Lt' and not truth and dest_ty == 'handles::ByteDestination':
-        # !(len < n)  ==  len >= n
-        if l[0] == 'len' and slice_of(l[1], D) and r[0] == 'c':
-            return r[1]
-    return None
+        return None
+    # (L, R, strict) with the meaning L < R / L <= R
+    if op == 'Lt':
+        L, R, strict = (l, r, True) if truth else (r, l, False)
+    elif op == 'Le':
+        L, R, strict = (l, r, False) if truth else (r, l, True)
+    elif op == 'Gt':
+        L, R, strict = (r, l, True) if truth else (l, r, False)
+    else:
+        L, R, strict = (r, l, False) if truth else (l, r, True)
+    a, b = _lin(L, D), _lin(R, D)
+    if a is None or b is None:
+        return None
+    d = dict(b[0])
+    for k, v in a[0].items():
+        d[k] = d.get(k, 0) - v
+        if d[k] == 0:
+            del d[k]
+    k0 = b[1] - a[1]
+    if dest_ty == 'handles::ByteDestination':
+        ok = d in ({'len:field': 1}, {'len:remaining': 1})
+    else:
+        ok = d == {'len:field': 1, 'pos': -1}
+    if not ok:
+        return None
+    cap = (1 - k0) if strict else -k0
+    return cap if cap >= 1 else None
 
 
 def mutation_points(body, D, dest_ty):
